@@ -73,6 +73,11 @@ fn calc_max_day_cost_per_sec(all_deltas: &Vec<TxDelta>) -> MaxDayCosts {
     let mut day_zero_sec_costs =
         HashMap::<Security, (Date, GreaterEqualZeroDecimal)>::new();
 
+    // The cost of each security after its last delta of each day. This (rather
+    // than the day's maximum) is what carries forward to later days.
+    let mut closing_costs_by_day =
+        HashMap::<Date, HashMap<Security, GreaterEqualZeroDecimal>>::new();
+
     // For each MomentaryCosts::sec_cost, we need to include every security
     let mut security_set = HashSet::<Security>::new();
 
@@ -109,6 +114,10 @@ fn calc_max_day_cost_per_sec(all_deltas: &Vec<TxDelta>) -> MaxDayCosts {
         let day_max_costs: &mut MaxSingleDayCosts =
             max_costs_by_day.get_mut(&date_from_delta).unwrap();
         day_max_costs.observe_new_cost(sec, total_acb);
+        closing_costs_by_day
+            .entry(date_from_delta)
+            .or_insert_with(HashMap::new)
+            .insert(sec.clone(), total_acb);
 
         if !day_zero_sec_costs.contains_key(sec) {
             day_zero_sec_costs.insert(
@@ -129,9 +138,9 @@ fn calc_max_day_cost_per_sec(all_deltas: &Vec<TxDelta>) -> MaxDayCosts {
     for day in sorted_days {
         let max_costs = max_costs_by_day.get_mut(&day).unwrap();
         for sec in &security_set {
-            let last_acb = *max_costs
-                .sec_max_cost_for_day
-                .get(sec)
+            let last_acb = *closing_costs_by_day
+                .get(&day)
+                .and_then(|closing| closing.get(sec))
                 .or_else(|| last_acbs.get(sec))
                 .unwrap_or_else(|| &day_zero_sec_costs.get(sec).unwrap().1);
 
